@@ -1,4 +1,7 @@
 use serde::{Deserialize, Serialize};
+#[cfg(pricelevel_verif)]
+use crate::verif_shim::{AtomicU64, Ordering};
+#[cfg(not(pricelevel_verif))]
 use std::sync::atomic::{AtomicU64, Ordering};
 use uuid::Uuid;
 
@@ -81,6 +84,14 @@ impl UuidGenerator {
         let name = counter.to_string();
         // Generate a UUID v5 (name-based) using the namespace and counter
         Uuid::new_v5(&self.namespace, name.as_bytes())
+    }
+}
+
+#[cfg(pricelevel_verif)]
+impl UuidGenerator {
+    /// Verification only: the counter read without generating an event, and its object id.
+    pub fn verif_counter(&self) -> (u64, usize) {
+        (self.counter.peek(), self.counter.oid())
     }
 }
 
